@@ -154,10 +154,24 @@ class ArgvTranslator(TE.EffTranslator):
         if isinstance(node, ast.Call):
             if isinstance(node.func, ast.Attribute) and self.is_erased(node.func.value, env):
                 return True
+            if isinstance(node.func, ast.Name) and node.func.id == "iter" and "iter" not in env \
+                    and any(self.is_erased(a, env) for a in node.args):
+                return True          # iter(out.readline, b''): the lines of an erased pipe
             return False
         if isinstance(node, ast.Subscript):
             return self.is_erased(node.value, env)
         return False
+
+    def noop_loop_env(self, st, env):
+        """the loop variable of a loop over an erased iterable (the lines of the hook's pipes) is erased too, so
+        that statements which only post-process it for logging (`text = line.decode(...).strip()`) are no-ops"""
+        if self.is_erased(st.iter, env):
+            e = dict(env)
+            for n in ast.walk(st.target):
+                if isinstance(n, ast.Name):
+                    e[n.id] = Var(None, ERASED)
+            return e
+        return TE.EffTranslator.noop_loop_env(self, st, env)
 
     def subcommand_of(self, node, env):
         return None
@@ -531,6 +545,13 @@ class ArgvTranslator(TE.EffTranslator):
                 env2 = dict(env)
                 env2[dname] = Var(ln, d.type)
                 return "let %s := (dictSet %s %s %s);\n%s" % (ln, k_, v_, d.lean, self.block(rest, env2, k))
+            # xs = []  (element type not known yet): no `let` — Lean could not type it; the literal is used where xs is
+            if isinstance(st, (ast.Assign, ast.AnnAssign)) and isinstance(st.value, ast.List) and not st.value.elts:
+                tgt = st.targets[0] if isinstance(st, ast.Assign) else st.target
+                if isinstance(tgt, ast.Name) and (isinstance(st, ast.AnnAssign) or len(st.targets) == 1):
+                    env2 = dict(env)
+                    env2[tgt.id] = Var("[]", LIST(None))
+                    return self.block(rest, env2, k)
             # x = A if c else B with an effect in a branch  ==  if c: x = A  else: x = B
             if isinstance(st, (ast.Assign, ast.AnnAssign)) and isinstance(st.value, ast.IfExp) \
                     and (self.has_effect(st.value.body, env) or self.has_effect(st.value.orelse, env)):
@@ -561,6 +582,37 @@ class ArgvTranslator(TE.EffTranslator):
                 return "Eff.bind (Eff.tryFinally\n%s\n%s) (fun _ =>\n%s)" % (
                     indent("(" + body + ")", 2), indent("(Eff.tmpClose %s)" % f.lean, 2), self.block(rest, env, k))
         return TE.EffTranslator.block(self, stmts, env, k)
+
+    def for_stmt(self, st, rest, env, k):
+        """`for x in xs: acc.append(e)` with `e` able to raise  ==  `acc = acc + [e for x in xs]`  (Eff.mapM)"""
+        if not st.orelse and isinstance(st.target, ast.Name):
+            env_probe = dict(env)
+            env_probe[st.target.id] = Var(lean_ident(st.target.id), STR)
+            live = [b for b in st.body if not self.is_noop(b, env_probe)]
+            if len(live) == 1 and isinstance(live[0], ast.Expr) and isinstance(live[0].value, ast.Call):
+                c = live[0].value
+                if (isinstance(c.func, ast.Attribute) and c.func.attr == "append" and isinstance(c.func.value, ast.Name)
+                        and len(c.args) == 1 and not c.keywords and c.func.value.id in env
+                        and env[c.func.value.id].type[0] == "list" and c.func.value.id != st.target.id
+                        and self.has_effect(c.args[0], env_probe)):
+                    acc = c.func.value.id
+                    if any(isinstance(n, ast.Name) and n.id == acc for n in ast.walk(c.args[0])):
+                        self.bad(st, "the appended element reads the list it is appended to")
+                    comp = ast.ListComp(elt=c.args[0], generators=[ast.comprehension(target=st.target, iter=st.iter, ifs=[], is_async=0)])
+                    ast.copy_location(comp, st)
+                    ast.fix_missing_locations(comp)
+                    binds, node2, env2 = self.hoist(comp, env)
+                    v, t = self.expr(node2, env2)
+                    a = env[acc]
+                    if a.type[1] is not None and a.type != t:
+                        self.bad(st, "append of %r elements to a list of %r" % (t[1], a.type[1]))
+                    ln = lean_ident(acc)
+                    env3 = dict(env2)
+                    env3[acc] = Var(ln, t)
+                    # an accumulator that is still the empty list literal: the result IS the mapped list
+                    new = v if a.lean.replace(" ", "") in ("[]", "([]:List_)") or a.type[1] is None else "(%s ++ %s)" % (a.lean, v)
+                    return wrap_binds(binds, "let %s := %s;\n%s" % (ln, new, self.block(rest, env3, k)))
+        return TE.EffTranslator.for_stmt(self, st, rest, env, k)
 
     def block_has_effect(self, stmts, env):
         for s in stmts:
